@@ -281,7 +281,18 @@ class Ctx:
                 ob.backend = "trivial"
             else:
                 started = time.time()
-                res = self._check(z3.Not(goal), timeout_ms=self.prove_timeout_ms)
+                # the solver's luck varies a lot on some queries (symbolic modulus: 0.7 s .. > 60 s by random seed):
+                # several shorter attempts with different seeds before one long one
+                budget = self.prove_timeout_ms
+                attempts = [(budget, 0)] if budget < 20000 else [(budget // 4, 0), (budget // 4, 1), (budget // 4, 2)]
+                attempts.append((budget, 3))
+                res = z3.unknown
+                for attempt_ms, seed in attempts:
+                    self.solver.set("random_seed", seed)
+                    res = self._check(z3.Not(goal), timeout_ms=attempt_ms)
+                    if res != z3.unknown:
+                        break
+                self.solver.set("random_seed", 0)
                 ob.seconds = time.time() - started
                 if res == z3.unsat:
                     ob.status = "discharged"
